@@ -430,6 +430,10 @@ func runExec(t *testing.T, sc *scenario, prefix []int) *verifmc.ExecResult {
 			x.act = append(x.act, a)
 		}
 		s.Moves = x.moves
+		// With several instances the parallel tile uploads of each are applied in
+		// canonical order (every subset of them is the subject of the
+		// single-instance crash scenarios of C03/C04).
+		s.AnonInOrder = len(sc.actors) > 0
 		verifmc.Cur = s
 		defer func() {
 			verifmc.Cur = nil
